@@ -73,6 +73,7 @@ func (p *c10Proc) ForceFlush(context.Context) error { return nil }
 type c10Scn struct {
 	name    string
 	threads [][]string
+	atLimit bool // event / link / attribute count limits of 1, already reached before the threads start
 }
 
 // ops: End, EndTS (End with explicit timestamp), Attr (SetAttributes k=1,l=2), Event, Status, Name,
@@ -82,10 +83,21 @@ func c10Body(sc c10Scn, tracing bool, res *string) func(x *sched.Exec) {
 	return func(x *sched.Exec) {
 		p1 := &c10Proc{}
 		p2 := &c10Proc{}
-		tp := NewTracerProvider(WithSpanProcessor(p1), WithSampler(AlwaysSample()))
+		opts := []TracerProviderOption{WithSpanProcessor(p1), WithSampler(AlwaysSample())}
+		if sc.atLimit {
+			// queues at capacity: a late mutation evicts in place instead of appending
+			opts = append(opts, WithRawSpanLimits(SpanLimits{AttributeValueLengthLimit: -1, AttributeCountLimit: 1, EventCountLimit: 1, LinkCountLimit: 1,
+				AttributePerEventCountLimit: -1, AttributePerLinkCountLimit: -1}))
+		}
+		tp := NewTracerProvider(opts...)
 		tr := tp.Tracer("t")
 		ctx, sp := tr.Start(context.Background(), "s")
 		rs := sp.(*recordingSpan)
+		if sc.atLimit {
+			sp.AddEvent("e0")
+			sp.AddLink(trace.Link{SpanContext: trace.NewSpanContext(trace.SpanContextConfig{TraceID: trace.TraceID{8}, SpanID: trace.SpanID{8}})})
+			sp.SetAttributes(attribute.Int("z", 0))
+		}
 		if tracing {
 			// what newSpan installs when Go execution tracing is enabled
 			rs.executionTracerTaskEnd = func() { sched.Yield("runtime/trace task end", rs) }
@@ -237,13 +249,15 @@ func (j c10Job) name() string {
 
 func c10Jobs(thorough, race bool) []c10Job {
 	scs := []c10Scn{
-		{"A-end-end-attr", [][]string{{"End"}, {"End"}, {"Attr"}}},
-		{"B-end-event-status", [][]string{{"End"}, {"Event"}, {"Status"}}},
-		{"C-end-name-link", [][]string{{"EndTS"}, {"Name"}, {"Link"}}},
-		{"D-end-error-isrec", [][]string{{"End"}, {"Error"}, {"IsRec", "IsRec"}}},
-		{"E-end-children", [][]string{{"End"}, {"Child"}, {"ChildStart"}}},
-		{"F-end-end-isrec", [][]string{{"End", "IsRec"}, {"EndTS"}}},
-		{"G-provider", [][]string{{"Tracer"}, {"Register"}, {"End"}}},
+		{"A-end-end-attr", [][]string{{"End"}, {"End"}, {"Attr"}}, false},
+		{"B-end-event-status", [][]string{{"End"}, {"Event"}, {"Status"}}, false},
+		{"C-end-name-link", [][]string{{"EndTS"}, {"Name"}, {"Link"}}, false},
+		{"D-end-error-isrec", [][]string{{"End"}, {"Error"}, {"IsRec", "IsRec"}}, false},
+		{"E-end-children", [][]string{{"End"}, {"Child"}, {"ChildStart"}}, false},
+		{"F-end-end-isrec", [][]string{{"End", "IsRec"}, {"EndTS"}}, false},
+		{"G-provider", [][]string{{"Tracer"}, {"Register"}, {"End"}}, false},
+		{"H-atlimit-end-error-event", [][]string{{"End"}, {"Error"}, {"Event"}}, true},
+		{"I-atlimit-end-link-attr", [][]string{{"End"}, {"Link"}, {"Attr"}}, true},
 	}
 	p := 3
 	if thorough {
